@@ -209,6 +209,11 @@ def chain(e: ast.AST, is_leaf: Callable[[ast.AST], bool], resolve_call: Callable
                 leaf = rec(f.value)
                 ops.append("strip")
                 return leaf
+            if isinstance(f, ast.Name) and f.id == "round" and 1 <= len(n.args) <= 2 and not n.keywords:
+                leaf = rec(n.args[0])
+                d = n.args[1] if len(n.args) == 2 else ast.Constant(value=0)
+                ops.append(f"round:{d.value}" if isinstance(d, ast.Constant) and isinstance(d.value, int) else "round:?")      # lossy: keeps d decimals
+                return leaf
             name = resolve_call(f)
             if name is not None and len(n.args) >= 1:
                 leaf = rec(n.args[0])
